@@ -177,3 +177,26 @@ _ADDED6 = {
 for _pid, _txt in _ADDED6.items():
     if _pid in CHECKS:
         CHECKS[_pid]['level_claimed']['text'] += _txt
+
+# ---- rounds 7-9 (DESIGN.md 9.7)
+_ADDED79 = {
+    'C01': " Integer-dtype pass (nothing the operators or the volumes read may be truncated).",
+    'C04': " S1 also requires the caller's term list unchanged and, as a post-state, that the cache the variable is left with is the boundary system of its conditions; a solve that reaches no solver is reported.",
+    'C05': " E5 is evaluated per axis also in the first / last rows along the other axes.",
+    'C07': " Concrete one-cell grids are part of the quick tier for the 2-D / 3-D classes.",
+    'C08': " A1 also on concrete grids with equally many (one, two) cells along every axis; operators are compared as assembled the second time on a mesh.",
+    'C09': " P10: edit histories of any length, explored breadth-first over abstract protocol states of a variable and a copy of it (edit, apply_BCs, explicit step, copy, solve on either), every solve must see the current boundary system and each term once; lemma rules C14 O3/O4/O6 (copies and arithmetic results share nothing, also on repeated calls).",
+    'C10': " G1 also on equispaced face arrays with a free origin; np.all / np.any over symbolic arrays are decided over index classes when constant.",
+    'C13': " F8 analyses _fsign under the argument binding of every call site that passes more than the field.",
+    'C14': " O6 second-copy scenario (copy, edit, copy again); user-defined __deepcopy__ / __copy__ are interpreted.",
+    'C15': " Z6: a repeated call of every builder with the same arguments returns the same values; Z2 requires the caller's term list unchanged.",
+    'C16': " L7 probes python numbers, flat and nested lists, CellVariable objects, numpy scalars, 0-d / 3-d arrays and mis-typed pairs; L3 also with a truthy non-bool flag through the public setter.",
+}
+for _pid, _txt in _ADDED79.items():
+    if _pid in CHECKS:
+        CHECKS[_pid]['level_claimed']['text'] += _txt
+_FORKS = (" Branches of the analysed code on tolerance predicates (np.isclose / np.allclose), on quantified predicates over symbolic data (np.any / np.all) "
+          "and on size comparisons the size range does not decide are explored path by path (the job is re-run once per decision sequence; value rules are "
+          "undetermined, never violated, on an outcome that pins the data).")
+for _pid in CHECKS:
+    CHECKS[_pid]['level_note'] = CHECKS[_pid].get('level_note', '') + _FORKS
